@@ -27,9 +27,9 @@ ASSUMPTIONS = [
     'routes are not added while requests are in flight (add_route during traffic is outside the property)',
     'generated resources, middleware and error handlers keep no state outside req/resp/params (the property is about the framework, not about user code)',
 ]
-RULE = ('(a) router race: routers generated from 3 route sets (fields, int/uuid converters, complex segments) x 2 (quick) / 3 (thorough) threads issuing the first-ever find() for PRNG-chosen paths; '
-        'every single-preemption schedule at line granularity (opcode granularity inside find/_compile_and_find), two-preemption schedules with the first preemption at an opcode of find/_compile_and_find or at the first/last lines of _compile and the second one densely after it and strided up to the end, plus PRNG-chosen 2-3 preemption schedules; each explored schedule is replayed through the Lean model (locking = true); '
-        '(b) 2-3 concurrent ASGI requests over generated apps (routes with fields/converters, middleware, media, errors, custom error handlers), interleaved at every receive/send and at explicit awaits inside middleware/responders in a PRNG-chosen order, and 2-3 WSGI threads (deterministic scheduler with PRNG preemption points at line events inside falcon/, and free-running threads), each compared with serial execution on a fresh identical app; '
+RULE = ('(a) router race: routers generated from 3 route sets (fields, int/uuid converters, complex segments) x 2 threads (quick) / 2 and 3 threads (thorough) issuing the first-ever find() for PRNG-chosen paths; '
+        'every single-preemption schedule at line granularity (opcode granularity inside find/_compile_and_find), two-preemption schedules with the first preemption at an opcode of find/_compile_and_find or at the first/last lines of _compile and the second one densely after it and strided up to the end, plus PRNG-chosen 2-4 preemption schedules (quick: all single preemptions and a PRNG subset of the rest); each explored schedule is replayed through the Lean model (locking = true); '
+        '(b) 2-3 concurrent ASGI requests over generated apps (routes with fields/converters, middleware, media, errors, custom error handlers), interleaved at every receive/send and at explicit awaits inside middleware/responders in a PRNG-chosen order, and 2-3 WSGI threads (deterministic scheduler with PRNG preemption points at line events inside falcon/, and free-running threads), each compared with one-at-a-time execution on an identical app of its own (the concurrent app is fresh: its requests are its first ever); '
         'non-trivial = at least one preemption took place while another request was in flight; distinct = distinct (route set, paths, switch points) / (app, requests, schedule seed)')
 PARTIAL = ('proof, partial: the locking protocol of the lazy router compile and the generic non-interference lemma are proved; that Falcon\'s per-request steps really touch only their own req/resp/params '
            '(the hypothesis of the lemma) is validated by the interleaved-vs-serial comparison on generated apps, not derived from the source; CPython\'s true atomicity (coarser than the traced steps) and '
@@ -223,8 +223,13 @@ def _router_race(ctx):
         reply = f"{outs} ncomp={info['ncomp']} ev={','.join(info['ev']) or '-'} paths={','.join(paths_cls)} agree=1"
         line = f"exec {0 if selftest else 1} {ntab} {nthreads} {','.join(sched_ids) or '-'}"
         if selftest:
-            sess_nl.case({'routes': rs, 'paths': paths, 'switches': sorted(switches.items())})
-            sess_nl.op(line, reply)
+            if all(r[0] == 'ok' for r in results):
+                # a thread that dies inside _compile() (tables reset under its feet) never publishes; the model has no
+                # exceptions, so only runs in which every thread returned are replayed
+                sess_nl.case({'routes': rs, 'paths': paths, 'switches': sorted(switches.items())})
+                sess_nl.op(line, reply)
+            else:
+                ctx.count('selftest_nolock_thread_died')
             return results != want or info['compile_calls'] != 1
         sess.case({'routes': rs, 'paths': paths, 'switches': sorted(switches.items())})
         sess.op(line, reply)
@@ -273,12 +278,12 @@ def _router_race(ctx):
                 cands.append({p: 1})
             # two preemptions: first at a hot point, second densely after it and strided to the end
             for p1 in hot:
-                offs = list(range(1, 41)) + list(range(41, E + 40, 9 if ctx.quick else 4))
+                offs = list(range(1, 41)) + list(range(41, E + 40, 9 if nthreads == 2 else 25))
                 for d in offs:
                     cands.append({p1: 1, p1 + d: 1})
             if nthreads == 3:
                 for p1 in hot:
-                    for d in list(range(1, 30, 2)) + list(range(30, E, 25)):
+                    for d in list(range(1, 30, 3)) + list(range(30, E, 50)):
                         cands.append({p1: 1, p1 + d: 1, p1 + d + rnd.randint(1, 60): rnd.choice([1, 2])})
                         cands.append({p1: 2, p1 + d: 1})
             # PRNG-chosen schedules
